@@ -37,7 +37,8 @@ func initProps() {
 				}
 				return 16
 			}},
-			{name: "ttlenum", params: "depth=4,shards=16", thorParams: "depth=6,shards=64", runs: func(tier string) int64 {
+			{name: "bulkenum", enum: true, runs: func(tier string) int64 { return 0 }},
+			{name: "ttlenum", params: "depth=4,shards=16", thorParams: "depth=5,shards=64", runs: func(tier string) int64 {
 				if tier == "thorough" {
 					return 64
 				}
